@@ -186,7 +186,7 @@ Proof.
   { destruct (match ag with Some g => negb (w =? g) | None => false end) eqn:E; auto. exfalso.
     simpl in E1. apply (f_equal (zlookup c)) in E1. rewrite zlookup_zdel_same, HD in E1. discriminate. }
   rewrite Hst in *. clear E1.
-  destruct (d_unregister_computation (n_disc st) c None true) as [[[d1 o1] e1] x1]. simpl.
+  destruct (d_unregister_computation (n_disc st) c None false) as [[[d1 o1] e1] x1]. simpl.
   split; [|split].
   - intros x Hx. apply msgs_to_In in Hx. apply in_app_or in Hx as [Hx|Hx].
     + apply to_self_In in Hx as [Hx _]. lia.
